@@ -490,8 +490,10 @@ func (c *twoPhaseCommitter) resolveFlushedLocks(bo *retry.Backoffer, start, end 
 	runner.SetStatLogInterval(30 * time.Second)
 	runner.SetRegionsPerTask(1)
 
+	// `end` is the largest flushed key (inclusive) while the range task takes an exclusive upper bound.
+	rangeEnd := kv.NextKey(end)
 	c.txn.spawnWithStorePool(func() {
-		if err = runner.RunOnRange(bo.GetCtx(), start, end); err != nil {
+		if err = runner.RunOnRange(bo.GetCtx(), start, rangeEnd); err != nil {
 			logutil.Logger(bo.GetCtx()).Error("[pipelined dml] resolve flushed locks failed",
 				zap.String("txn-status", status),
 				zap.Uint64("resolved regions", resolved.Load()),
